@@ -6,7 +6,7 @@
 # Each patch is applied at the `head` recorded in its result.json (else at /repo's HEAD).
 set -u
 export GOFLAGS=-mod=mod GOPROXY=off GOSUMDB=off GOTOOLCHAIN=local
-MUST_BREAK="C06-b2 C18-b2 C18-c1 C05-c2 C09-b2 C11-b2 C14-c2 C18-2 C18-b1 C18-c2 C18-f2"
+MUST_BREAK="C06-b2 C18-b2 C18-c1 C05-c2 C09-b2 C11-b2 C14-c2 C18-2 C18-b1 C18-c2 C18-f2 C19-h22"
 # repairs that rewrote a generation-guarded memo test and are harmless for C18
 QUIET_COMMITS="673b372"
 T=/tmp/c18state.$$; mkdir -p $T; trap "rm -rf $T" EXIT
@@ -27,8 +27,8 @@ evalpatch() {
 fail=0
 for p in $MUST_BREAK; do
   r=$(evalpatch /verif/seeded/$p/patch.diff)
-  case "$r" in "(false,"*) echo "must-break $p: breaks  $r";; *) echo "must-break $p: NOT CAUGHT  $r"; fail=1;; esac
-  grep "NOT DISPOSED\|UNCLASSIFIED\|NOT PINNED" $T/State.notes.txt | sort -u | head -3 | cut -c1-260
+  case "$r" in "(true, true, true, [])"*|APPLY-FAILED*|EXTRACT-FAILED*) echo "must-break $p: NOT CAUGHT  $r"; fail=1;; *) echo "must-break $p: breaks  $r";; esac
+  grep "NOT DISPOSED\|UNCLASSIFIED\|NOT PINNED\|NEW WRITER\|PACKAGE-LEVEL\|NOT CONFINED" $T/State.notes.txt | sort -u | head -3 | cut -c1-260
 done
 quiet=0; alarms=0
 for d in /verif/seeded/benign/*/; do
